@@ -64,14 +64,24 @@ def plan_rules(ctx, F, rid):
     merge = []
     for bodyx in F.nested('plan::build_plan') + [x for k_, x in F.bodies.items() if k_.startswith('plan::') and k_.split('::{')[0] not in ('plan::build_plan', 'plan::is_excluded', 'plan::glob_match', 'plan::needs_transfer') and '::tests' not in k_]:
         xfl = flow_of(bodyx)
-        for cb_, ct_ in xfl.calls(lambda c: c in ('std::cmp::Ord::cmp', 'std::cmp::PartialOrd::partial_cmp')):
+        for cb_, ct_ in xfl.calls(lambda c: c in ('std::cmp::Ord::cmp', 'std::cmp::PartialOrd::partial_cmp', 'std::cmp::PartialOrd::lt', 'std::cmp::PartialOrd::le',
+                                                   'std::cmp::PartialOrd::gt', 'std::cmp::PartialOrd::ge')):
             tys = ' '.join(bodyx.local_ty(a['p']['l']) for a in ct_['args'] if a['k'] != 'const')
             if 'Path' in tys or 'OsStr' in tys or 'str' in tys or '[u8]' in tys:
                 raw = 'Path' not in tys or any(o.kind == 'call' and str(o.key).split('::')[-1] in ('as_os_str', 'as_encoded_bytes', 'to_string_lossy', 'to_str', 'as_bytes', 'as_str', 'display', 'to_string')
                                                for a in ct_['args'] if a['k'] != 'const' for o in xfl.origins(a))
                 merge.append((bodyx, cb_, raw))
     called = {c for c in (callee(t_) for _, t_ in fl.calls(lambda c: True))}
-    merge = [m_ for m_ in merge if m_[0].path.split('::{')[0] == 'plan::build_plan' or m_[0].path.split('::{')[0] in called]
+    def under_build_plan(bx):
+        # closures of a helper that was spliced into build_plan hang under build_plan (re-parented)
+        cur, n_ = bx, 0
+        while cur is not None and n_ < 8:
+            if cur.path.split('::{')[0] == 'plan::build_plan' or cur.path == 'plan::build_plan':
+                return True
+            cur = F.body(cur.parent) if cur.parent else None
+            n_ += 1
+        return False
+    merge = [m_ for m_ in merge if under_build_plan(m_[0]) or m_[0].path.split('::{')[0] in called]
     if merge:
         rawm = [m_ for m_ in merge if m_[2]]
         if rawm:
